@@ -126,9 +126,11 @@ def rule_loader_paths(u, rep, want=("LEAK", "RAW", "FILL", "ARG", "CAP")):
                     backend_written = i
                 if e[0] == "AssumeInitUninit" or (e[0] == "Call" and e[2] == "assume_init"):
                     released = True
-                if e[0] == "TryErr" and raw_unowned is not None and "RAW" in want:
+                if e[0] in ("TryErr", "R", "W") and raw_unowned is not None and "RAW" in want:
                     rep.oblige(False)
-                    rep.add("RAW", name, "%s: a fallible step (%s) can return while the raw allocation is not yet owned by any value: the buffer leaks" % (name, label(e[2])[:80]), e[1])
+                    rep.add("RAW", name, "%s: a fallible step (%s) can return while the raw allocation is not yet owned by any value: the buffer leaks"
+                            % (name, label(e[2])[:80] if e[0] == "TryErr" else "stream read/write"), e[1] if e[0] == "TryErr" else e[-1])
+                    raw_unowned = None
             if "LEAK" in want and backend_written is not None and p.kind == "ret":
                 ok = released
                 rep.oblige(ok)
@@ -421,6 +423,21 @@ def rule_alias_owner(u, rep, scope_files, crate="epserde"):
 
 
 # ---------------------------------------------------------------------- C14
+def flat_events(evs):
+    for e in evs:
+        if e[0] == "Loop":
+            body = e[2]
+            if isinstance(body, tuple) and body and body[0] == "alt":
+                for (_c, sub) in body[1]:
+                    for x in flat_events(sub):
+                        yield x
+            else:
+                for x in flat_events(body):
+                    yield x
+        else:
+            yield e
+
+
 def copy_bounded(b, T):
     """T is bounded by ZeroCopy or Copy in the where-clauses of b."""
     for pj in b.preds:
@@ -457,7 +474,7 @@ def rule_uninit_exposed(u, rep, scope_files, crate="epserde"):
                     continue
                 n += 1
                 safe = T is not None and (T[0] == "prim" or copy_bounded(b, T))
-                later_fallible = any(x[0] in ("TryErr", "TryEdge", "R") for x in p.events[i + 1:])
+                later_fallible = any(x[0] in ("TryErr", "TryEdge", "R") for x in flat_events(p.events[i + 1:]))
                 ok = safe or not later_fallible
                 rep.oblige(ok)
                 if not ok and (b.n, "setlen") not in seen:
